@@ -88,7 +88,7 @@ pub fn run_stream(
             _ => "phase.wrapped_twice_or_more",
         });
         let ok = settle(rep, property, oracle, p, ph, t, &js, &mut || with_prefix(i));
-        if tracing && trace.len() < 250 {
+        if tracing && trace.len() < 150 {
             trace.push(trace_event(x, &out, &r, &js, sk, ok));
         }
         if !ok {
